@@ -54,6 +54,8 @@ type FuncCtx struct {
 	wrap             bool
 	inlined          map[string]bool
 	inlinedWithLoops map[string]bool
+	inlineCount      map[string]int // number of inlinings of a callee named by a "loop <n> in <callee>" clause
+	inlLoopsSeen     map[string]bool
 	callCount        map[string]int
 	assertSeen       map[string]bool
 	curTags          []string
@@ -78,6 +80,7 @@ type loopInfo struct {
 	lc      *LoopContract
 	rangeIx *ssa.Alloc
 	rangeLn ssa.Value
+	fromTop bool // clauses given by the contract of the function under verification for a loop of an inlined callee
 }
 
 type Frame struct {
@@ -94,6 +97,10 @@ type Frame struct {
 	defers   []*ssa.Defer
 	goBodies []*ssa.Function
 	onReturn func(st *State, vals []Val)
+	// inlined frames: the calling frame, and the loop clauses the contract of the function under
+	// verification gives for this inlining ("loop <n> in <callee>")
+	parent   *Frame
+	inlLoops map[int]*LoopContract
 }
 
 type retPoint struct {
@@ -200,7 +207,11 @@ func VerifyFunction(p *Program, fn *ssa.Function, c *Contract) (fc *FuncCtx, err
 			p.registerHeap(h, ArraySort(SInt, s))
 			fvs = append(fvs, Val{LV: &LVal{Kind: lvField, Ref: IntLit(1), Heap: h, Typ: pt.Elem()}})
 		} else if _, isStruct := pt.Elem().Underlying().(*types.Struct); isStruct {
-			fvs = append(fvs, fc.freshVal("fv."+fv.Name(), fv.Type(), st))
+			v := fc.freshVal("fv."+fv.Name(), fv.Type(), st)
+			if v.T != nil {
+				st.assume(Neq(v.T, IntLit(0))) // the address of a captured variable is never nil
+			}
+			fvs = append(fvs, v)
 		} else {
 			unsupp("free variable %s of type %s", fv.Name(), fv.Type())
 		}
@@ -234,6 +245,11 @@ func VerifyFunction(p *Program, fn *ssa.Function, c *Contract) (fc *FuncCtx, err
 	for _, as := range c.Asserts {
 		if !fc.assertSeen[as.Name] {
 			panic(elabErr{fmt.Sprintf("%s:%d: assert_at %s: no such call in %s", c.File, as.Line, as.Name, funcKey(fn))})
+		}
+	}
+	for k := range c.InlLoops {
+		if !fc.inlLoopsSeen[k] {
+			panic(elabErr{fmt.Sprintf("%s:%d: loop ... in %s: no such callee is inlined into %s", c.File, c.Line, k, funcKey(fn))})
 		}
 	}
 	if !hasLoop(fn) && len(fc.inlinedWithLoops) == 0 {
@@ -466,6 +482,15 @@ func (fc *FuncCtx) lookupLocalAt(fr *Frame, st *State, name string, at token.Pos
 			if lv.T != nil {
 				return SVal{T: lv.T, Typ: fv.Type()}, true
 			}
+		}
+	}
+	if fr.parent != nil {
+		// inlined frame: the variables (and parameters) of the calling frames are in scope as a last resort
+		if v, ok := fc.lookupLocalAt(fr.parent, st, name, token.NoPos); ok {
+			return v, true
+		}
+		if v, ok := fr.parent.params[name]; ok {
+			return v, true
 		}
 	}
 	return SVal{}, false
@@ -821,6 +846,10 @@ func (fc *FuncCtx) findLoops(fr *Frame) {
 		if c != nil {
 			li.lc = c.Loops[li.ordinal]
 		}
+		if lc := fr.inlLoops[li.ordinal]; lc != nil {
+			li.lc = lc
+			li.fromTop = true
+		}
 		// rangeindex detection
 		for _, ins := range h.Instrs {
 			if stt, ok := ins.(*ssa.Store); ok {
@@ -974,6 +1003,8 @@ func (fc *FuncCtx) modOfInstr(fr *Frame, ins ssa.Instruction, cells map[*ssa.All
 				h := iterHeapName(r)
 				fc.p.registerHeap(h, ArraySort(sortOf(mt.Key()), SBool))
 				mi.heaps[h] = true
+				fc.p.registerHeap(h+"#n", SInt)
+				mi.heaps[h+"#n"] = true
 			}
 		}
 	}
@@ -1006,7 +1037,41 @@ func (fc *FuncCtx) modOfCall(fr *Frame, call *ssa.CallCommon, cells map[*ssa.All
 		// closure value: try static MakeClosure
 		if mc, ok := call.Value.(*ssa.MakeClosure); ok {
 			callee = mc.Fn.(*ssa.Function)
+		} else if fv, ok := fc.knownFnVal(fr, call.Value); ok {
+			// call of a function value known in this (inlined) frame, e.g. the `it` parameter of an
+			// iterator inlined into its caller: the effects are those of the function literal,
+			// including its assignments to the captured variables of the frames below
+			cm := fc.modOfFunc(fv.Fn, depth+1)
+			for h := range cm.heaps {
+				if !strings.HasPrefix(h, "FV:") {
+					mi.heaps[h] = true
+				}
+			}
+			mi.allocs = true
+			if cells != nil {
+				fc.capturedStores(fv, cells, 0)
+			}
+			return
 		} else {
+			if call.IsInvoke() {
+				// interface method with several implementations: used through its interface-level contract
+				// (calls.go); the heaps that contract lets the method write belong to the loop's modified set
+				key := "(" + typeKeyShort(call.Value.Type()) + ")." + call.Method.Name()
+				pk := ""
+				if nt, ok := call.Value.Type().(*types.Named); ok && nt.Obj().Pkg() != nil {
+					pk = nt.Obj().Pkg().Path()
+				}
+				if c, ok := fc.p.ifaceContracts[pk+"::"+key]; ok {
+					for _, h := range fc.ifaceModHeaps(c, call) {
+						mi.heaps[h] = true
+					}
+				}
+			}
+			if fr != nil && !call.IsInvoke() {
+				// the effects of an unknown function value cannot be bounded (silently ignoring them would
+				// leave what it writes un-havocked at the loop head)
+				unsupp("call of a function value that cannot be resolved statically, inside a loop of %s", fr.fn)
+			}
 			mi.allocs = true
 			return
 		}
@@ -1024,6 +1089,9 @@ func (fc *FuncCtx) modOfCall(fr *Frame, call *ssa.CallCommon, cells map[*ssa.All
 			cf := mc.Fn.(*ssa.Function)
 			cm := fc.modOfFunc(cf, depth+1)
 			for h := range cm.heaps {
+				if strings.HasPrefix(h, "FV:") {
+					continue // the literal's captured variables are cells of this frame: handled below
+				}
 				mi.heaps[h] = true
 			}
 			if cm.allocs {
@@ -1045,6 +1113,84 @@ func (fc *FuncCtx) modOfCall(fr *Frame, call *ssa.CallCommon, cells map[*ssa.All
 						}
 					}
 				}
+			}
+		}
+	}
+}
+
+// knownFnVal: the function literal (with its bindings) a function-typed SSA value denotes in the frame
+func (fc *FuncCtx) knownFnVal(fr *Frame, v ssa.Value) (*FnVal, bool) {
+	if fr == nil {
+		return nil, false
+	}
+	if r, ok := fr.regs[v]; ok && r.Fn != nil && r.Fn.Fn != nil {
+		return r.Fn, true
+	}
+	// NaiveForm: a function-typed parameter or local lives in a cell and is loaded before the call; the
+	// load inside a loop body has not been executed when the loop's modified set is computed, so
+	// resolve it statically: the cell must be assigned exactly once in the function
+	if u, ok := v.(*ssa.UnOp); ok && u.Op == token.MUL {
+		if a, ok := u.X.(*ssa.Alloc); ok && a.Parent() == fr.fn {
+			var stored ssa.Value
+			n := 0
+			for _, b := range fr.fn.Blocks {
+				for _, ins := range b.Instrs {
+					if st, ok := ins.(*ssa.Store); ok && st.Addr == a {
+						stored = st.Val
+						n++
+					}
+				}
+			}
+			if n == 1 {
+				if mc, ok := stored.(*ssa.MakeClosure); ok {
+					if r, ok := fr.regs[mc]; ok && r.Fn != nil {
+						return r.Fn, true
+					}
+					// not executed yet: bindings by SSA value
+					var bs []Val
+					for _, bv := range mc.Bindings {
+						if ba, ok := bv.(*ssa.Alloc); ok && isCellType(ba.Type().Underlying().(*types.Pointer).Elem()) {
+							bs = append(bs, Val{LV: &LVal{Kind: lvCell, Alloc: ba}})
+						} else {
+							bs = append(bs, Val{})
+						}
+					}
+					return &FnVal{Fn: mc.Fn.(*ssa.Function), Bindings: bs}, true
+				}
+				if r, ok := fr.regs[stored]; ok && r.Fn != nil && r.Fn.Fn != nil {
+					return r.Fn, true
+				}
+				if f, ok := stored.(*ssa.Function); ok {
+					return &FnVal{Fn: f}, true
+				}
+			}
+		}
+	}
+	return nil, false
+}
+
+// capturedStores: the cells of enclosing frames that a function literal (or a literal it calls
+// directly through one of its own captured function values) assigns
+func (fc *FuncCtx) capturedStores(fv *FnVal, cells map[*ssa.Alloc]bool, depth int) {
+	if depth > 4 {
+		unsupp("nested function literals too deep")
+	}
+	for _, b := range fv.Fn.Blocks {
+		for _, ins := range b.Instrs {
+			if st, ok := ins.(*ssa.Store); ok {
+				if v, ok := st.Addr.(*ssa.FreeVar); ok {
+					for k, f := range fv.Fn.FreeVars {
+						if f == v && k < len(fv.Bindings) {
+							if lv := fv.Bindings[k].LV; lv != nil && lv.Kind == lvCell {
+								cells[lv.Alloc] = true
+							}
+						}
+					}
+				}
+			}
+			if mc, ok := ins.(*ssa.MakeClosure); ok {
+				_ = mc
+				unsupp("function literal creating another function literal, called through a function value in a loop")
 			}
 		}
 	}
@@ -1080,6 +1226,33 @@ func (fc *FuncCtx) modOfFunc(f *ssa.Function, depth int) *modInfo {
 		}
 	}
 	return mi
+}
+
+// ifaceModHeaps: heap array names of the modifies clause of an interface-level contract
+func (fc *FuncCtx) ifaceModHeaps(c *Contract, call *ssa.CallCommon) []string {
+	st := &State{pc: True, cells: map[*ssa.Alloc]Val{}, heap: map[string]*Term{}, ghost: map[string]*Term{}, alloc: Var("$m.alloc", SInt)}
+	env := &Env{p: fc.p, vars: map[string]SVal{}, cur: st, old: st}
+	if nt, ok := call.Value.Type().(*types.Named); ok && nt.Obj().Pkg() != nil {
+		env.pkg = nt.Obj().Pkg()
+	}
+	env.vars["recv"] = SVal{T: Var("$m.recv", SInt), Typ: call.Value.Type()}
+	sig := call.Method.Type().(*types.Signature)
+	for i := 0; i < sig.Params().Len(); i++ {
+		if s := sortOf(sig.Params().At(i).Type()); s != nil && sig.Params().At(i).Name() != "" {
+			env.vars[sig.Params().At(i).Name()] = SVal{T: Var("$m."+sig.Params().At(i).Name(), s), Typ: sig.Params().At(i).Type()}
+		}
+	}
+	var out []string
+	for _, m := range c.Modifies {
+		locs, err := elabModLoc(fc.p, m, env)
+		if err != nil {
+			panic(elabErr{fmt.Sprintf("%s:%d: modifies %q: %v", c.File, c.Line, m, err)})
+		}
+		for _, l := range locs {
+			out = append(out, l.Heap)
+		}
+	}
+	return out
 }
 
 // contractModHeaps: heap array names of a contract's modifies clause
@@ -1343,9 +1516,10 @@ func (fc *FuncCtx) enterLoop(fr *Frame, li *loopInfo, st *State) *State {
 	if li.lc != nil && li.lc.Decreases != nil {
 		env := fc.envFor(fr, h, nil, true)
 		fc.bindLoopVars(fr, li, h, env)
+		fc.topLoopEnv(li, env)
 		v, err := env.ElabTerm(li.lc.Decreases.Expr)
 		if err != nil {
-			panic(elabErr{fmt.Sprintf("%s:%d: decreases: %v", fr.contract.File, li.lc.Decreases.Line, err)})
+			panic(elabErr{fmt.Sprintf("line %d: decreases: %v", li.lc.Decreases.Line, err)})
 		}
 		li.variant = v.T
 	}
@@ -1378,6 +1552,8 @@ func (fc *FuncCtx) bindLoopVars(fr *Frame, li *loopInfo, st *State, env *Env) {
 			if r, ok := nx.Iter.(*ssa.Range); ok {
 				if _, ok := r.X.Type().Underlying().(*types.Map); ok {
 					env.vars["$vis"] = SVal{T: st.H(fc.p, iterHeapName(r))}
+					// $i of a map range: the number of keys produced so far
+					env.vars["$i"] = SVal{T: st.H(fc.p, iterHeapName(r)+"#n"), Typ: tInt}
 				}
 			}
 		}
@@ -1411,12 +1587,29 @@ func (fc *FuncCtx) bindLoopVars(fr *Frame, li *loopInfo, st *State, env *Env) {
 	}
 }
 
+// topLoopEnv: clauses that the contract of the function under verification gives for a loop of an
+// inlined callee ("loop <n> in <callee>") are read in the two-state context of that function:
+// old() and fresh() refer to ITS entry, package constants to its package. Identifiers resolve to the
+// inlined callee's variables first, then to those of the calling frames (lookupLocalAt).
+func (fc *FuncCtx) topLoopEnv(li *loopInfo, env *Env) {
+	if !li.fromTop {
+		return
+	}
+	env.old = fc.entry
+	if fc.top.Pkg != nil {
+		env.pkg = fc.top.Pkg.Pkg
+	}
+}
+
 // activeProp: the property of this run (-prop); "" = all
 var activeProp string
 
 func (fc *FuncCtx) loopInvariants(fr *Frame, li *loopInfo, entry *State, mi *modInfo, cells map[*ssa.Alloc]bool) []invariant {
 	var out []invariant
 	c := fr.contract
+	if li.fromTop {
+		c = fc.contract
+	}
 	if li.lc != nil {
 		for _, cl := range li.lc.Invariants {
 			cl := cl
@@ -1427,6 +1620,7 @@ func (fc *FuncCtx) loopInvariants(fr *Frame, li *loopInfo, entry *State, mi *mod
 			out = append(out, invariant{text: cl.Text, tags: cl.Tags, at: func(st *State) *Term {
 				env := fc.envFor(fr, st, nil, true)
 				fc.bindLoopVars(fr, li, st, env)
+				fc.topLoopEnv(li, env)
 				env.entrySt = entry
 				env.entryLocal = func(name string) (SVal, bool) { return fc.lookupLocal(fr, entry, name) }
 				t, err := env.ElabBool(cl.Expr)
@@ -1472,6 +1666,7 @@ func (fc *FuncCtx) loopInvariants(fr *Frame, li *loopInfo, entry *State, mi *mod
 	if li.lc != nil && li.lc.ModifiesSet {
 		env := fc.envFor(fr, entry, nil, true)
 		fc.bindLoopVars(fr, li, entry, env)
+		fc.topLoopEnv(li, env)
 		var locs []ModLoc
 		for _, m := range li.lc.Modifies {
 			ls, err := elabModLoc(fc.p, m, env)
@@ -1515,6 +1710,7 @@ func (fc *FuncCtx) backEdge(fr *Frame, li *loopInfo, st *State, pos token.Pos) {
 	if li.variant != nil {
 		env := fc.envFor(fr, st, nil, true)
 		fc.bindLoopVars(fr, li, st, env)
+		fc.topLoopEnv(li, env)
 		v, err := env.ElabTerm(li.lc.Decreases.Expr)
 		if err != nil {
 			panic(elabErr{fmt.Sprintf("decreases: %v", err)})
